@@ -93,7 +93,8 @@ def case_formats(run, i):
         "bed4": ("x.bed4", F.to_bed(rows, 4, track=bool(rng.integers(0, 2))), ["bed", "bed4"], True),
         "bed6": ("x.bed6", F.to_bed(rows, 6), ["bed", "bed4"], True),
         "bed7": ("x.bed7", F.to_bed(rows, 7), ["bed"], True),
-        "interval": ("x.interval_list", F.to_interval([r for r in rows], header=bool(rng.integers(0, 2))), ["interval"], True),
+        "interval": ("x.interval_list", F.to_interval([r for r in rows], header=bool(rng.integers(0, 2)),
+                                                          strands=[("+",), ("-",), (".",), ("+", "-", ".")][int(rng.integers(0, 4))]), ["interval"], True),
         "text": ("x.txt", F.to_text(rows, with_gene=bool(rng.integers(0, 2))), ["text"], False),
         "gff": ("x.gff", F.to_gff(rows, version_line=bool(rng.integers(0, 2))), ["gff"], True),
         "tab": ("x.tsv", F.to_tab(rows), ["tab"], True),
@@ -203,6 +204,12 @@ def case_round(run, i):
             run.violate("tabio.read[roundtrip]", f"roundtrip-{fmt}-read-raises-{type(back).__name__}", f"{back!r}", {"rows": rows[:10], "kind": kind})
             continue
         _safe(T.write, back, p2, fmt)
+        # files written by the library itself must be auto-detected as what they are (names of letters, digits, underscores)
+        if i % 4 and (fmt in ("bed3", "text") or kind >= 1) and fmt != "bed":
+            TM.register_truth(p1, rows, fmt, gene=fmt in ("tab", "bed4", "interval"))
+            r = _safe(T.read_auto, p1)
+            if isinstance(r, Exception):
+                run.violate("tabio.read[truth]", f"auto-written-{fmt}-raises-{type(r).__name__}", f"auto-detecting a file written with fmt={fmt} raised {r!r}", {"rows": rows[:20]})
     shutil.rmtree(d, ignore_errors=True)
     run.end_case(fp=rt.fingerprint(cols, 12), nontrivial=n >= 2, sample={"columns": list(cols), "rows": rows[:3]} if i % 79 == 0 else None)
 
